@@ -66,6 +66,32 @@ def run_directed(shard) -> Result:
         (g.Empty(), empty_pb2.Empty), (g.Int64Value(value=-1), wrappers_pb2.Int64Value),
         (g.Struct(fields={"k" + str(i): g.Value(number_value=i) for i in range(12)}), struct_pb2.Struct),
     ]
+    # generated messages whose wrapper-typed / float FIELDS alternate between the two zeros
+    mb = corpus.build_item({"kind": "matrix"})
+    try:
+        from ..values import attr_names as _an
+
+        Wkt = mb.bp_class(".vf.matrix.Wkt")
+        Sc = mb.bp_class(".vf.matrix.Scalars")
+        Rp = mb.bp_class(".vf.matrix.Repeateds")
+        rW, rS, rR = (mb.ref_class(".vf.matrix." + n) for n in ("Wkt", "Scalars", "Repeateds"))
+        for z in (0.0, -0.0, 0.0, -0.0, 1.5, -0.0):
+            frames.append((Wkt(w_double=z, w_float=-z if z == 0 else z), rW))
+            frames.append((Sc(f_double=z, f_float=z), rS))
+            frames.append((Rp(r_double=[z, -z if z == 0 else 2.5], r_float=[z]), rR))
+    except Exception:
+        mb.cleanup()
+        raise
+    try:
+        return _directed_stream(frames, res, w)
+    finally:
+        mb.cleanup()
+
+
+def _directed_stream(frames, res: Result, w) -> Result:
+    import betterproto
+    from google.protobuf import proto as gproto
+
     s = io.BytesIO()
     datas = []
     for m, _ in frames:
